@@ -230,6 +230,14 @@ def gen_inputs(rng, n, tier):
         for _ in range(2):
             out.append(("token-mutation", gen.render(mutate_tokens(rng, toks)).encode("utf-8")))
         out.append(("byte-mutation", mutate_bytes(rng, text.encode("utf-8"))))
+        if k % 3 == 0:
+            # tuples and anonymous components in every position, valid and invalid (the generator of C18): one definition per file, so that
+            # an invalid one is followed by a main component that instantiates it
+            from checks import c18
+            g = c18.G(rng, k)
+            nm, src, _ = g.function() if rng.chance(1, 5) else g.template()
+            main = "component main = %s();\n" % nm if src.startswith("template") and rng.chance(2, 3) else ""
+            out.append(("sugar", ("pragma circom 2.0.0;\n" + c18.HELPERS + src + "\n" + main).encode("utf-8")))
         if k % 5 == 0:
             out.append(("random-tokens", " ".join(rng.choice(VOCAB) for _ in range(rng.below(60) + 1)).encode("utf-8")))
         if k % 10 == 0:
